@@ -68,7 +68,7 @@ def run_program(tier, idx, prog=None, plan=None, seed=None, kms=None):
         sent = I(SENTINEL)
         desc = sk.describe(f, I)
         inst_first = prog['kind'] == 'unbound'
-        try: sig = inspect.signature(f, follow_wrapped=False)
+        try: sig = sk.true_signature(f)
         except (ValueError, TypeError): sig = None      # e.g. a partial that can never be called
         recs, viol = [], []
         tags = collections.Counter()
